@@ -224,6 +224,28 @@ pub fn c08_configs(thorough: bool) -> Vec<EpCfg> {
     v.extend(large_id_configs("c08", "c08", thorough));
     v.extend(oversized_reply_configs("c08", "c08", thorough));
     v.extend(clean_start_expiry_configs("c08", "c08", thorough));
+    // identifiers the application holds (acquired / registered, not yet used) next to exchanges of a session that
+    // the next CONNACK declares "not present": only the old exchanges go; an identifier that was erased or
+    // acknowledged while the CONNACK was outstanding and has been acquired again is the application's
+    for role in [RoleK::Client, RoleK::Server] {
+        for ver in VERS {
+            if !thorough && !(role == RoleK::Client && ver == Ver::V4) && !(role == RoleK::Server && ver == Ver::V5) {
+                continue;
+            }
+            let mut c = EpCfg::new(&cfg_name("c08", role, Some(ver), "held ids across session-not-present"), role, Some(ver));
+            c.auto_pub = true;
+            c.window = 2;
+            c.alph = session_alph(ver == Ver::V5, 2);
+            c.alph.pub_q = vec![1, 2];
+            c.alph.erase = true;
+            c.alph.raw_ids = vec![1, 2];
+            c.alph.early_peer_traffic = true;
+            c.connects = vec![ConnProf::basic(false)];
+            c.connacks = vec![AckProf::basic(false), AckProf::basic(true)];
+            c.groups = vec!["c08"];
+            v.push(c);
+        }
+    }
     // raw id-management calls for every id value incl. 0 and the type maximum
     for role in [RoleK::Client, RoleK::Server] {
         for ver in VERS {
